@@ -829,6 +829,21 @@ class H2Stream:
         return self.state_machine.state == StreamState.CLOSED
 
     @property
+    def reserved_local(self):
+        """
+        Whether we have promised this stream and not yet sent the response.
+        """
+        return self.state_machine.state == StreamState.RESERVED_LOCAL
+
+    @property
+    def reserved_remote(self):
+        """
+        Whether the remote peer has promised this stream and not yet sent the
+        response.
+        """
+        return self.state_machine.state == StreamState.RESERVED_REMOTE
+
+    @property
     def closed_by(self):
         """
         Returns how the stream was closed, as one of StreamClosedBy.
